@@ -191,6 +191,52 @@ REDUCTIONS = [("add", "sum"), ("multiply", "prod"), ("logical_and", "all"), ("lo
               ("maximum", "amax"), ("minimum", "amin")]
 
 
+OUT_COMPARE = ["less", "less_equal", "greater", "greater_equal", "equal", "not_equal"]
+OUT_CONST_BINARY = ["add", "subtract", "multiply", "floor_divide", "true_divide", "remainder",
+                    "logical_and", "logical_or", "maximum", "minimum"]
+OUT_CONST_UNARY = ["negative", "positive", "absolute", "square", "rint", "floor", "ceil", "isfinite"]
+OUT_POLY_BINARY = ["add", "subtract", "multiply", "floor_divide", "true_divide"]
+OUT_POLY_UNARY = ["negative", "positive", "square"]
+
+
+def out_pairs(numpoly, name, args, out_kind):
+    """The two function spellings called with out=<fresh buffer>; None when the call is not valid
+    without out= either."""
+    try:
+        with warnings.catch_warnings():
+            warnings.simplefilter("ignore")
+            ref = getattr(numpoly, name)(*args)
+    except Exception:  # pylint: disable=broad-except
+        return None
+    if out_kind == "plain":
+        if isinstance(ref, numpoly.ndpoly):
+            if not ref.isconstant():
+                return None
+            ref = ref.tonumpy()
+        ref = numpy.asarray(ref)
+        if not ref.ndim:
+            return None
+
+        def buffer():
+            return numpy.full(ref.shape, 77).astype(ref.dtype)
+    else:
+        if not isinstance(ref, numpoly.ndpoly) or not ref.ndim:
+            return None
+
+        def buffer():
+            return numpoly.polynomial_from_attributes(
+                ref.exponents, [numpy.zeros(ref.shape, dtype=ref.dtype)] * len(ref.exponents),
+                names=ref.names, dtype=ref.dtype, retain_coefficients=True, retain_names=True)
+
+    def call(namespace):
+        def run():
+            target = buffer()
+            result = getattr(namespace, name)(*args, out=target)
+            return [result, target]
+        return run
+    return [("numpy", call(numpy)), ("numpoly", call(numpoly))]
+
+
 def run_operator_case(case, ctx):
     import numpoly
 
@@ -230,6 +276,13 @@ def run_operator_case(case, ctx):
                  ("numpy", lambda: getattr(numpy, target)(a, axis=axis, **extra))]
         if kind == "add":
             pairs.append(("method", lambda: a.sum(axis=axis, **extra)))
+    elif case["form"] == "out":
+        facts["out_kind"] = case["out_kind"]
+        pairs = out_pairs(numpoly, kind, (a,) if b is None else (a, b), case["out_kind"])
+        if pairs is None:
+            ctx.count("skipped_out_not_applicable")
+            return
+        ctx.count("out_cases")
     elif case["form"] == "accumulate":
         axis = case["axis"]
         pairs = [("ufunc.accumulate", lambda: numpy.add.accumulate(a, axis=axis)),
@@ -241,6 +294,7 @@ def run_operator_case(case, ctx):
         ctx.evaluated((kind, case["form"], base_label, label, case.get("axis")), True)
         ctx.count("spelling_pairs")
         if base[0] != res[0]:
+            facts["raised_by"] = base_label if base[0] == "raised" else label
             ctx.violation(dict(facts, failure="raise_vs_return", pair=f"{base_label}|{label}"),
                           f"{kind}: {base_label} -> {base[1:] if base[0] == 'raised' else 'returned'}, "
                           f"{label} -> {res[1:] if res[0] == 'raised' else 'returned'}", case)
@@ -254,14 +308,58 @@ def run_operator_case(case, ctx):
             return
 
 
+def gen_out_case(g, cg, kind, flavour, op=None):
+    """Explicit output buffers: a plain array (constant operands, comparisons) or a polynomial."""
+    rng = g.rng
+    case = {"form": "out"}
+    oshape = g.shape(3)
+    while not oshape:
+        oshape = g.shape(3)
+    if flavour == "compare":
+        case["op"], case["out_kind"] = op or rng.choice(OUT_COMPARE), "plain"
+        case["a"] = g.poly(shape=oshape, kind=kind)
+        case["b"] = g.poly(shape=g.compatible_shape(oshape), kind=kind)
+    elif flavour == "const":
+        case["out_kind"] = "plain"
+        case["op"] = op or rng.choice(OUT_CONST_BINARY + OUT_CONST_UNARY)
+        case["a"] = cg.poly(shape=oshape, kind=kind)
+        case["b"] = None
+        if case["op"] in OUT_CONST_BINARY:
+            case["b"] = cg.poly(shape=g.compatible_shape(oshape), kind=kind) \
+                if rng.random() < 0.6 else {"k": "py", "v": rng.choice([2, 3, 5])}
+            if case["b"]["k"] == "poly":
+                case["b"]["coefs"] = [G.nested_map(lambda v: v if v else 2, case["b"]["coefs"][0])]
+        for spec in (case["a"], case["b"]):
+            if spec and spec["k"] == "poly":
+                spec.pop("dtype", None)
+                spec.pop("zero_term", None)
+    else:
+        case["out_kind"] = "poly"
+        case["op"] = op or rng.choice(OUT_POLY_BINARY + OUT_POLY_UNARY)
+        case["a"] = g.poly(shape=oshape, kind=kind, allow_views=False)
+        case["b"] = None
+        if case["op"] in ("floor_divide", "true_divide"):
+            case["b"] = {"k": "py", "v": rng.choice([2, 4])}
+        elif case["op"] in OUT_POLY_BINARY:
+            case["b"] = g.poly(shape=g.compatible_shape(oshape), kind=kind)
+    return case
+
+
 def run_operators(spec, ctx):
     g = G.Gen(spec["seed"] * 1000003 + 88)
     cg = C.ConstGen(0)
     cg.rng = g.rng
     rng = g.rng
+    # every function that takes out= is driven at least twice per run and output kind
+    for flavour, ops in (("compare", OUT_COMPARE), ("const", OUT_CONST_BINARY + OUT_CONST_UNARY),
+                         ("poly", OUT_POLY_BINARY + OUT_POLY_UNARY)):
+        for op in ops:
+            for kind in ("int", "float"):
+                case = gen_out_case(g, cg, kind, flavour, op)
+                ctx.run_case(case, lambda c: run_operator_case(c, ctx))
     for i in range(spec["n"]):
         form = rng.choice(["binary", "binary", "unary", "power", "division", "reduce", "reduce",
-                           "accumulate", "binary_same", "binary_same"])
+                           "accumulate", "binary_same", "binary_same", "out", "out", "out"])
         shape = g.shape(2)
         kind = rng.choice(["int", "float"])
         case = {"form": form}
@@ -295,6 +393,8 @@ def run_operators(spec, ctx):
                 if name == "floor_divide":
                     case["b"] = {"k": "py", "v": rng.choice([2, 3, -2])}
             case["op"] = name
+        elif form == "out":
+            case.update(gen_out_case(g, cg, kind, rng.choice(["compare", "const", "const", "poly"])))
         elif form == "unary":
             case["op"] = rng.choice(UNOPS)[0]
             case["a"] = (cg if case["op"] == "absolute" else g).poly(shape=shape, kind=kind)
